@@ -1,8 +1,101 @@
+/-
+  Drv/Resource.lean — JSON ops over Model/Resource.lean (property C19).
+
+  {"op":"resource", "prog": <prog>, "history": ["next" | "throwInBlock" | "close" | "drop" | "throw" | "releaseExc", …]}
+    <prog> = {"fn":"read_csv",   "src": <src>, "n": <blocks>}
+           | {"fn":"read_excel", "src": <src>, "sheets": [{"read": bool, "pre": n, "post": n}, …]}
+           | {"fn":"load_files", "files": [{"kind":"csv","f":id,"n":n,"keep":[bool…]}
+                                          | {"kind":"xlsx","f":id,"sheets":[…],"keep":[bool…]} | {"kind":"folder"}, …]}
+           | {"fn":"write_csv" | "write_excel", "src": <src>, "n": <tables>}
+    <src>  = {"path": id} | {"stream": id}
+  answer: {"wf": bool, "states": [{"pc": "notStarted"|"suspended"|"done", "k": delivered, "out": …,
+            "fds": [file ids with a descriptor open], "open": [handles], "tb": [handles], "callerClosed": [ids],
+            "bad": [handles]}, …]}   — one state per action
+  {"op":"resource_frames"} answers the frame (shape) the model reads from the translator table for each function.
+-/
 import Drv.Base
-open Lean Pdt
+import PdtModel.Model.Resource
+open Lean Pdt Pdt.Resource
 namespace Drv
 
-/-- op handler of the `Resource` layer (stub until the layer is built) -/
-def handleResource (_op : String) (_j : Json) : Option (Except String Json) := none
+def srcOfJson (j : Json) : Except String Src :=
+  match j.getObjVal? "path" with
+  | .ok v => do let n ← v.getNat?; pure (.path n)
+  | .error _ => do let n ← getNat j "stream"; pure (.stream n)
+
+def sheetOfJson (j : Json) : Except String Sheet := do
+  pure ⟨← getBool j "read", ← getNat j "pre", ← getNat j "post"⟩
+
+def keepOfJson (j : Json) : Except String (List Bool) := do
+  (← getArr j "keep").mapM (fun b => b.getBool?)
+
+def fileOfJson (j : Json) : Except String (FileSpec × List Bool) := do
+  let kind ← (← j.getObjVal? "kind").getStr?
+  match kind with
+  | "csv" => pure (.csv (← getNat j "f") (← getNat j "n"), ← keepOfJson j)
+  | "xlsx" => do
+    let shs ← (← getArr j "sheets").mapM sheetOfJson
+    pure (.xlsx (← getNat j "f") shs, ← keepOfJson j)
+  | "folder" => pure (.folder, [])
+  | _ => throw s!"unknown file kind {kind}"
+
+def progOfJson (j : Json) : Except String Trace := do
+  let fn ← (← j.getObjVal? "fn").getStr?
+  match fn with
+  | "read_csv" => pure (readCsv Gen.withFrames (← srcOfJson (← j.getObjVal? "src")) (← getNat j "n"))
+  | "read_excel" => do
+    let shs ← (← getArr j "sheets").mapM sheetOfJson
+    pure (readExcel Gen.withFrames (← srcOfJson (← j.getObjVal? "src")) shs)
+  | "load_files" => do
+    let fs ← (← getArr j "files").mapM fileOfJson
+    pure (loadFiles Gen.withFrames fs)
+  | "write_csv" => pure (writeCsv Gen.withFrames (← srcOfJson (← j.getObjVal? "src")) (← getNat j "n"))
+  | "write_excel" => pure (writeExcel Gen.withFrames (← srcOfJson (← j.getObjVal? "src")) (← getNat j "n"))
+  | _ => throw s!"unknown resource fn {fn}"
+
+def actionOfJson (j : Json) : Except String Action := do
+  match ← j.getStr? with
+  | "next" => pure .next
+  | "throwInBlock" => pure .throwInBlock
+  | "close" => pure .close
+  | "drop" => pure .drop
+  | "throw" => pure .throw
+  | "releaseExc" => pure .releaseExc
+  | a => throw s!"unknown action {a}"
+
+def handleToJson : Handle → Json
+  | .lib (.path f) k => Json.str s!"p{f}#{k}"
+  | .lib (.stream s) k => Json.str s!"s{s}#{k}"
+  | .caller c => Json.str s!"caller{c}"
+
+def stToJson (s : St) : Json :=
+  Json.mkObj [
+    ("pc", Json.str (match s.pc with | .notStarted => "notStarted" | .suspendedAt _ _ => "suspended" | .done => "done")),
+    ("k", nat s.delivered),
+    ("out", Json.str (match s.out with | .none => "none" | .yielded => "yielded" | .stopped => "stopped" | .raised => "raised")),
+    ("fds", arr ((fdsOpen s).map nat)),
+    ("open", arr (s.opn.map handleToJson)),
+    ("tb", arr (s.tb.map handleToJson)),
+    ("callerClosed", arr ((callerClosed s).map nat)),
+    ("bad", arr (s.bad.map handleToJson))]
+
+def frameToJson : Frame → Json
+  | .withs cs => arr (cs.map fun c => Json.str (match c with
+      | .openIfPath => "openIfPath" | .closingWorkbook => "closingWorkbook" | .closingRows => "closingRows"))
+  | .bareOpen => Json.str "bareOpen"
+  | .explicitClose => Json.str "explicitClose"
+  | .unknown => Json.str "unknown"
+
+/-- op handler of the `Resource` layer -/
+def handleResource (op : String) (j : Json) : Option (Except String Json) :=
+  match op with
+  | "resource" => some do
+    let t ← progOfJson (← j.getObjVal? "prog")
+    let hs ← (← getArr j "history").mapM actionOfJson
+    pure (Json.mkObj [("wf", Json.bool (wf t)), ("states", arr ((runStates t hs).map stToJson))])
+  | "resource_frames" => some do
+    pure (Json.mkObj (["read_csv", "read_sheets", "read_excel", "write_csv", "write_excel_openpyxl"].map
+      fun fn => (fn, frameToJson (frameOf Gen.withFrames fn))))
+  | _ => none
 
 end Drv
